@@ -49,6 +49,21 @@ Definition reserved_dup (e : env) (raw : node) : bool :=
   | _ => false
   end.
 
+(** a CTE whose query has a result column without a name (an un-aliased
+    expression): a star over the CTE writes an empty identifier *)
+Definition unnamed_cte_column (raw : node) : bool :=
+  existsb (fun cte =>
+    existsb (fun t =>
+      is_kind "ResTarget" t && match str_opt "Name" t with Some _ => false | None => true end
+      && let k := kind_of (kid "Val" t) in
+         negb (mem_str k ["ColumnRef"; "FuncCall"; "CoalesceExpr"; "SubLink"])
+         && negb (String.eqb k "TypeCast" && is_kind "ColumnRef" (kid "Arg" (kid "Val" t))))
+      (kid_items "TargetList" (kid "Ctequery" cte)))
+    (search (is_kind "CommonTableExpr") raw).
+
+Definition has_star0 (raw : node) : bool :=
+  existsb (fun t => let v := kid "Val" t in is_kind "ColumnRef" v && has_star_ref v) (search (is_kind "ResTarget") raw).
+
 Definition c02_class_e (e : env) (raw : node) : N :=
   if cte_alias_shared raw then 3
   else if has_from_subselect raw then 1
@@ -56,6 +71,7 @@ Definition c02_class_e (e : env) (raw : node) : N :=
                             && negb (Nat.eqb (List.length (kid_items "ReturningList" u)) 0))
                   (search (is_kind "UpdateStmt") raw) then 2
   else if reserved_dup e raw then 4
+  else if unnamed_cte_column raw && has_star0 raw then 5
   else 0.
 
 Definition c02_class (raw : node) : N :=
